@@ -29,6 +29,7 @@ type Program struct {
 	RepoDir string
 	Overlay map[string][]byte
 	PkgPath string
+	PkgDir  string
 }
 
 // Load loads pkgPath (relative to the repo module, "" = root) with overlay files injected.
@@ -69,6 +70,7 @@ func Load(repoDir, pkgRel string, overlay map[string][]byte) (*Program, error) {
 		return nil, fmt.Errorf("no SSA package for %s", pat)
 	}
 	p.PkgPath = p.Pkg.Pkg.Path()
+	p.PkgDir = filepath.Join(repoDir, pkgRel)
 	p.build(p.Pkg)
 	if ep := prog.ImportedPackage("errors"); ep != nil {
 		p.build(ep)
@@ -198,3 +200,14 @@ func (p *Program) HarnessDoc(fn *ssa.Function) map[string]string {
 }
 
 var _ = filepath.Join
+
+// inHarnessPkg reports whether ins is located in a source file of the harness package's directory
+// (those files are instrumented for native schedule replay).
+func (p *Program) inHarnessPkg(ins ssa.Instruction) bool {
+	if ins == nil || ins.Pos() == token.NoPos {
+		// verifGo is called from harness code: its call instruction has a position; anything without one is not instrumented
+		return false
+	}
+	file := p.Fset.Position(ins.Pos()).Filename
+	return filepath.Dir(file) == p.PkgDir
+}
